@@ -15,6 +15,7 @@ import (
 	amqpExt "github.com/kubeshark/base/pkg/extensions/amqp"
 	dnsExt "github.com/kubeshark/base/pkg/extensions/dns"
 	httpExt "github.com/kubeshark/base/pkg/extensions/http"
+	kafkaExt "github.com/kubeshark/base/pkg/extensions/kafka"
 	redisExt "github.com/kubeshark/base/pkg/extensions/redis"
 	"github.com/kubeshark/base/pkg/languages/kfl"
 	"ksverif/harness/internal/mock"
@@ -39,8 +40,9 @@ func init() {
 	families["stages.redis"] = &Family{Gen: genRedisConv, Run: func(p sx.Sx) sx.Sx { return runStages("redis", p) }}
 	families["stages.amqp"] = &Family{Gen: genAmqpConv, Run: func(p sx.Sx) sx.Sx { return runStages("amqp", p) }}
 	families["stages.http"] = &Family{Gen: genHttpStages, Run: func(p sx.Sx) sx.Sx { return runStages("http", p) }}
+	families["stages.kafka"] = &Family{Gen: genKafkaStages, Run: func(p sx.Sx) sx.Sx { return runStages("kafka", p) }}
 	families["stages.dns"] = &Family{Gen: genDnsEntries, Run: func(p sx.Sx) sx.Sx { return runStages("dns", p) }}
-	for _, p := range []string{"redis", "amqp", "http", "dns"} {
+	for _, p := range []string{"redis", "amqp", "http", "dns", "kafka"} {
 		families["queries."+p] = families["stages."+p]
 	}
 	families["queries.http"] = &Family{Gen: genHttpConv, Run: func(p sx.Sx) sx.Sx { return runStages("http", p) }}
@@ -124,6 +126,14 @@ func runStages(proto string, p sx.Sx) sx.Sx {
 	case "http":
 		d = httpExt.NewDissector()
 		cb, sb = encHttpConv(p)
+	case "kafka":
+		d = kafkaExt.NewDissector()
+		for _, m := range p.List[0].List {
+			cb = append(cb, m.List[len(m.List)-1].Bytes()...)
+		}
+		for _, m := range p.List[1].List {
+			sb = append(sb, m.List[len(m.List)-1].Bytes()...)
+		}
 	case "dns":
 		d = dnsExt.NewDissector()
 		var req, resp map[string]interface{}
@@ -146,7 +156,7 @@ func runStages(proto string, p sx.Sx) sx.Sx {
 	}
 	stats := &api.AppStats{}
 	out := make(chan *api.OutputChannelItem, 1<<14)
-	port := map[string]string{"redis": "6379", "amqp": "5672", "http": "80"}[proto]
+	port := map[string]string{"redis": "6379", "amqp": "5672", "http": "80", "kafka": "9092"}[proto]
 	conn := mock.NewConn(d, d.NewResponseRequestMatcher(), stats, out, "pcap0", "10.0.0.1", "40000", "10.0.0.2", port)
 	halfRun := func(b []byte, r *mock.Reader) {
 		defer func() { _ = recover() }()
